@@ -617,6 +617,11 @@ func (e *tcpEngine) serveFrame(j *tcpJob, length int) bool {
 // rejectInPlace frames the library-shaped bare-header rejection from the
 // job's TX headroom, allocation-free.
 func (j *tcpJob) rejectInPlace(verdict acceptVerdict, _ int) {
+	if g, ok := j.engine.handler.(sourceGate); ok && !g.AdmitsSource(j) {
+		// An excluded source hears nothing, rejections included.
+		tcpDropIgnored.Inc()
+		return
+	}
 	out := j.tx[dnsclient.FramePrefixLen : dnsclient.FramePrefixLen+wire.HeaderLen]
 	for i := range out {
 		out[i] = 0
